@@ -1487,3 +1487,4 @@ def replay(ctx, payload):
         run_ = replay_ops(c["length"], c["ops"], c.get("root"))
         run_.sparse = len(c["ops"]) > 150
         eval_runs(ctx, [run_])
+THEOREMS += ['assignField_core', 'gen_assign_field', 'scan_find', 'firstFit_eq']   # translator tie: generated function bodies = model (Props/C08Gen.lean)
